@@ -410,7 +410,7 @@ func ruleReseekDirection(c *Ctx, r *R) {
 				return
 			}
 			cal := staticCallee(&call.Call)
-			if cal == nil || fname(cal) != s.step {
+			if cal == nil || cursorStepKind(c, cal) != s.step {
 				return
 			}
 			for _, g := range guardsOf(b) {
@@ -639,4 +639,45 @@ func paramIndex(p *ssa.Parameter) int {
 		}
 	}
 	return -1
+}
+
+// cursorStepKind: "Next" / "Prev" for the cursor's step methods and for the raw step each of them ends in (Next: `if c.lost() {
+// re-seek; return }; c.stepForward()` - the seeks, which have just positioned the cursor and synced its generation, may call
+// stepForward directly); "" otherwise.
+func cursorStepKind(c *Ctx, cal *ssa.Function) string {
+	n := fname(cal)
+	if n == "Next" || n == "Prev" {
+		return n
+	}
+	for _, step := range []string{"Next", "Prev"} {
+		sf := cur(c, step)
+		if sf == nil {
+			continue
+		}
+		var last *ssa.Call
+		instrs(sf, func(_ *ssa.BasicBlock, _ int, in ssa.Instruction) {
+			if call, ok := in.(*ssa.Call); ok {
+				if f := staticCallee(&call.Call); f != nil && origin(f) == origin(cal) && len(call.Call.Args) == 1 && call.Call.Args[0] == ssa.Value(sf.Params[0]) {
+					last = call
+				}
+			}
+		})
+		if last == nil {
+			continue
+		}
+		// the call is the last thing Next does (its block ends in the return)
+		b := last.Block()
+		tail := true
+		for _, in := range b.Instrs[idxIn(last)+1:] {
+			switch in.(type) {
+			case *ssa.Return, *ssa.Jump, *ssa.DebugRef:
+			default:
+				tail = false
+			}
+		}
+		if tail {
+			return step
+		}
+	}
+	return ""
 }
